@@ -80,7 +80,7 @@ impl<'a> Gen<'a> {
     fn coord(&mut self, allow_neg: bool) -> Dec {
         self.site += 1;
         let k = self.site;
-        let alt = self.c.cost(11, "coord");
+        let alt = self.c.cost(13, "coord");
         match alt {
             0 => Dec { mant: 15 + 10 * k, scale: 1 },          // 1.5 + k
             1 => Dec { mant: 2 + k, scale: 0 },                // integer
@@ -98,7 +98,22 @@ impl<'a> Gen<'a> {
             7 => Dec { mant: 1 + 10 * k, scale: 5 },           // 0.00001: not a whole number of 1e-4 um
             8 => Dec { mant: 15 + 100 * k, scale: 6 },         // 0.000015: not representable
             9 => Dec { mant: 0, scale: 0 },
-            _ => Dec { mant: 0, scale: 3 },                    // 0.000
+            10 => Dec { mant: 0, scale: 3 },                   // 0.000
+            11 => {
+                // negative and not a whole number of raw units (sign-dependent remainder handling)
+                if allow_neg {
+                    Dec { mant: -(1 + 10 * k), scale: 5 }
+                } else {
+                    Dec { mant: 3 + 10 * k, scale: 5 }
+                }
+            }
+            _ => {
+                if allow_neg {
+                    Dec { mant: -(1_234_567 + 1000 * k), scale: 6 } // -1.234567: negative, fraction beyond 1e-4
+                } else {
+                    Dec { mant: 1_234_567 + 1000 * k, scale: 6 }
+                }
+            }
         }
     }
     fn shape(&mut self, kind: usize) -> GShape {
@@ -300,7 +315,7 @@ impl CaseDriver for C16 {
     fn describe(&self, tier: Tier) -> Describe {
         Describe {
             rule: format!(
-                "LefLibrary values built directly: 1-2 macros with SIZE, 0-2 pins x 1-2 ports x 1-2 layer geometries, 0-2 obstruction layers (second optionally on the same layer => merged), 1-2 geometries per layer of kind RECT / POLYGON (3-5 points) / PATH (2-3 points, layer WIDTH), layer names from {{m1, M1, via, boundary, e-acute}}; every coordinate site takes one of 11 decimals Decimal::new(mantissa, scale) built from the site counter (so all sites differ: x != y everywhere): scale 0,1,2,4,5,6, negative, trailing zeros, zero spelled 0 and 0.000, and two values that are not a whole number of 1e-4 um. Free: kind of the first shape and second macro; all other choices cost one deviation; all choice sequences with <= {} deviations. A state is one library value; non-trivial = at least one deviation. Oracle: value*10^4 computed on the decimal digits.",
+                "LefLibrary values built directly: 1-2 macros with SIZE, 0-2 pins x 1-2 ports x 1-2 layer geometries, 0-2 obstruction layers (second optionally on the same layer => merged), 1-2 geometries per layer of kind RECT / POLYGON (3-5 points) / PATH (2-3 points, layer WIDTH), layer names from {{m1, M1, via, boundary, e-acute}}; every coordinate site takes one of 13 decimals Decimal::new(mantissa, scale) built from the site counter (so all sites differ: x != y everywhere): scale 0,1,2,4,5,6, negative, trailing zeros, zero spelled 0 and 0.000, and four values (two positive, two negative) that are not a whole number of 1e-4 um. Free: kind of the first shape and second macro; all other choices cost one deviation; all choice sequences with <= {} deviations. A state is one library value; non-trivial = at least one deviation. Oracle: value*10^4 computed on the decimal digits.",
                 self.bound(tier)
             ),
             assumptions: vec!["WIDTH is only generated on layers that hold a PATH (an unused non-representable WIDTH is not a coordinate of any shape)".into()],
